@@ -16,7 +16,7 @@ BOUNDS = {
     'quick': 'words of 0-2 symbolic characters (widths 1 and 3), every non-empty subset of {insert, delete, replace, swap} '
              'that is a single kind or all four, every exclusion subset, context tables keyed by the contexts of the word '
              'itself (each entry present or absent) with edit lists [x], [yz, empty string] and (grapheme mode) one 2-code-point grapheme cluster, can_delete / can_swap '
-             'arbitrary (fresh Boolean per call), full_delete both, every random stream; chains of 2 edits for 1-character '
+             'arbitrary (fresh Boolean per call), full_delete both, grapheme-mode words that contain the cluster CR LF or e + U+0301 next to symbolic letters, every random stream; chains of 2 edits for 1-character '
              'words; code-point mode and grapheme mode over ASCII letters; the corrupt_spelling driver (artificial mode, delete + swap) on '
              'the texts ab, abc, a with symbolic seed and per-character edit probability',
     'thorough': 'words of 0-3 characters, all 15 kind subsets, chains of 2 edits up to 2 characters',
@@ -29,6 +29,28 @@ KNOWN_MATCHERS = {}
 VALIDATION_ALLOW_FORKS = True
 KINDS = ['insert', 'delete', 'replace', 'swap']
 TABLES = [(['x'], [1.0]), (['yz', ''], [0.5, 0.5]), (['e\u0301'], [1.0])]   # table 2: one 2-code-point grapheme cluster
+
+
+def py_units(cps, g):
+    """units of a concrete word over the alphabet used here: CR LF and base + U+0301 are one cluster in grapheme mode"""
+    out = []
+    for c in cps:
+        if g and out and ((c == 0x301 and out[-1][-1] not in (13, 10)) or (c == 10 and out[-1] == [13])):
+            out[-1].append(c)
+        else:
+            out.append([c])
+    return out
+
+
+def flat(units):
+    return [c for u in units for c in u]
+
+
+def t_units(t, g):
+    """edit string (list of chars) as units of the mode"""
+    if g and len(t) == 2 and (t[1].v if hasattr(t[1], 'v') else t[1]) == 0x301:
+        return [list(t)]
+    return [[c] for c in t]
 
 
 def tlen(t, g):
@@ -57,6 +79,10 @@ def shapes(tier):
                                 continue
                             chain = 1
                         out.append({'widths': list(ws), 'kinds': ks, 'g': g, 'table': tbl, 'chain': chain})
+    # grapheme mode: words that contain a multi-code-point cluster (CR LF, e + U+0301) next to symbolic letters
+    for tm in (['l', 13, 10], [13, 10, 'l'], ['l', 13, 10, 'l'], ['l', 0x65, 0x301]) + (() if tier == 'quick' else ([0x65, 0x301, 'l', 'l'],)):
+        for ks in ([[k] for k in KINDS] + ([KINDS] if (len(tm) < 4 or tier != 'quick') else [])):
+            out.append({'widths': [1] * len(tm), 'tmpl': tm, 'kinds': ks, 'g': True, 'table': 0, 'chain': 1})
     for word in (['ab', 'abc', 'a'] if tier == 'quick' else ['ab', 'abc', 'a', 'abcd', 'ab cd']):
         for fd in (False, True):
             out.append({'part': 'driver', 'text': word, 'full_delete': fd, 'widths': [1] * len(word), 'kinds': ['delete', 'swap'], 'chain': 0})
@@ -178,30 +204,32 @@ def edits_value(ctx, tbl):
 
 
 def build_tables(ctx, chars, tbl, present_ins, present_rep):
-    """InsertEdits / ReplaceEdits whose keys are the contexts occurring in the word."""
+    """InsertEdits / ReplaceEdits whose keys are the contexts occurring in the word (`chars`: list of units)."""
     n = len(chars)
     ins = MapObj('HashMap')
     for idx in range(n + 1):
         if not present_ins[idx]:
             continue
-        prev = [chars[idx - 1]] if idx > 0 else BOW
-        cur = [chars[idx]] if idx < n else EOW
+        prev = list(chars[idx - 1]) if idx > 0 else BOW
+        cur = list(chars[idx]) if idx < n else EOW
         map_insert(ctx, ins, Tup([cow(ctx, prev), cow(ctx, cur)]), edits_value(ctx, tbl))
     rep = MapObj('HashMap')
     for idx in range(n):
         if not present_rep[idx]:
             continue
-        prev = [chars[idx - 1]] if idx > 0 else BOW
-        nxt = [chars[idx + 1]] if idx + 1 < n else EOW
-        map_insert(ctx, rep, Tup([cow(ctx, prev), cow(ctx, [chars[idx]]), cow(ctx, nxt)]), edits_value(ctx, tbl))
+        prev = list(chars[idx - 1]) if idx > 0 else BOW
+        nxt = list(chars[idx + 1]) if idx + 1 < n else EOW
+        map_insert(ctx, rep, Tup([cow(ctx, prev), cow(ctx, list(chars[idx])), cow(ctx, nxt)]), edits_value(ctx, tbl))
     return (Struct('InsertEdits', [ins], ['insertions']), Struct('ReplaceEdits', [rep], ['replacements']))
 
 
 def candidates(word, excl, kinds, tbl, g=False):
-    """All results one edit may legally produce: list of (kind, new_word(list of items), new_excl(set))."""
+    """All results one edit may legally produce: list of (kind, new_word(list of units), new_excl(set)); `word` is a list
+    of units (each a list of chars), positions are unit indices."""
     n = len(word)
     out = []
-    texts = [[Int(ord(c), 'char') for c in e] for e in TABLES[tbl][0]]
+    texts = [t_units([Int(ord(c), 'char') for c in e], g) for e in TABLES[tbl][0]]
+    tlen = lambda t, g: len(t)
     if 'insert' in kinds:
         for idx in range(n + 1):
             if idx in excl or (idx > 0 and idx - 1 in excl):
@@ -236,19 +264,28 @@ def run(ctx, shape, opts):
     g = shape['g']
     kinds = shape['kinds']
     tbl = shape['table']
-    s = ctx.in_string('word', shape['widths'])
-    chars = s.chars()
-    n = len(chars)
+    tmpl = shape.get('tmpl')
+    if tmpl and ctx.concrete is None:
+        # word template: 'l' = symbolic letter, integers = concrete code points (CR LF, e + U+0301: multi-code-point clusters)
+        chars = [ctx.sym_char('word_c%d' % i, 1) if t == 'l' else Int(t, 'char') for i, t in enumerate(tmpl)]
+        ctx.inputs['word'] = chars
+        buf = StrBuf(chars, [ctx.char_width(c) for c in chars])
+        s = StrRef(buf, 0, buf.byte_len())
+    else:
+        s = ctx.in_string('word', shape['widths'])
+        chars = s.chars()
     if ctx.concrete is None:
         for c in chars:
-            if ctx.char_width(c) == 1:
+            if ctx.char_width(c) == 1 and c.sym():
                 # letters other than the edit alphabet x, y, z (so that inserted text is recognisable)
                 ctx.assume(z3.And(z3.UGE(c.v, 0x61), z3.ULE(c.v, 0x77)))
+    units0 = [list(chars[a:b]) for a, b in units_of(ctx, chars, g)]
+    n = len(units0)
     excl = {i for i in range(n) if ctx.in_choice('excl%d' % i, 2)}
     present_ins = [ctx.in_choice('ins%d' % i, 2) for i in range(n + 1)] if 'insert' in kinds else [0] * (n + 1)
     present_rep = [ctx.in_choice('rep%d' % i, 2) for i in range(n)] if 'replace' in kinds else [0] * n
     full_delete = bool(ctx.in_choice('full_delete', 2)) if 'delete' in kinds else False
-    ins, rep = build_tables(ctx, chars, tbl, present_ins, present_rep)
+    ins, rep = build_tables(ctx, units0, tbl, present_ins, present_rep)
     answers = []
 
     def pred(c, *a):
@@ -258,7 +295,7 @@ def run(ctx, shape, opts):
     dele = Struct('DeleteEdits', [full_delete, PyFn(pred, 'can_delete')], ['full_delete', 'can_delete'])
     swp = Struct('SwapEdits', [PyFn(pred, 'can_swap')], ['can_swap'])
     rng = RngObj('seeded', Int(0, 'u64'))
-    word = list(chars)
+    word = units0
     cur = s
     cur_excl = set(excl)
     outs = []
@@ -277,14 +314,15 @@ def run(ctx, shape, opts):
         nwc = list(out_chars(ctx, nw))
         outs.append([to_py(ctx, nw), sorted(ne)])
         # ---- oracle
-        alts = [m.conj([chars_equal(ctx, nwc, word), ne == cur_excl])]
+        alts = [m.conj([chars_equal(ctx, nwc, flat(word)), ne == cur_excl])]
         for kind, cw, ce in candidates(word, cur_excl, kinds, tbl, g):
-            alts.append(m.conj([chars_equal(ctx, nwc, cw), ne == ce]))
+            alts.append(m.conj([chars_equal(ctx, nwc, flat(cw)), ne == ce]))
         ctx.require(m.disj(alts), 'result is the word unchanged or exactly one edit of an enabled kind at an unprotected '
                                   'position, with the exclusion set re-indexed plus the edited positions')
-        nunits = len(nwc) - (1 if (g and tbl == 2 and any(isinstance(c.v, int) and c.v == 0x301 for c in nwc)) else 0)
+        nunits_ = [list(nwc[a:b]) for a, b in units_of(ctx, nwc, g)]
+        nunits = len(nunits_)
         ctx.require(all(0 <= e < nunits for e in ne), 'returned exclusion indices lie inside the new word')
-        word = nwc
+        word = nunits_
         cur = m.peel(nw).as_str()
         cur_excl = ne
     ctx.out('steps', outs)
@@ -295,28 +333,28 @@ def run(ctx, shape, opts):
 # ------------------------------------------------------------------ native side
 
 def _native_run(native, shape, inputs, seed):
-    n = len(shape['widths'])
-    w = inputs['word']
+    w = py_units(inputs['word'], shape['g'])
+    n = len(w)
     kinds = shape['kinds']
     ins_entries, rep_entries = [], []
     edits, weights = TABLES[shape['table']]
     ed = [[ord(c) for c in e] for e in edits]
     for idx in range(n + 1):
         if 'insert' in kinds and inputs.get('ins%d' % idx):
-            prev = [w[idx - 1]] if idx > 0 else [ord(c) for c in BOW]
-            cur = [w[idx]] if idx < n else [ord(c) for c in EOW]
+            prev = w[idx - 1] if idx > 0 else [ord(c) for c in BOW]
+            cur = w[idx] if idx < n else [ord(c) for c in EOW]
             ins_entries.append({'prev': prev, 'cur': cur, 'edits': ed, 'weights': weights})
     for idx in range(n):
         if 'replace' in kinds and inputs.get('rep%d' % idx):
-            prev = [w[idx - 1]] if idx > 0 else [ord(c) for c in BOW]
-            nxt = [w[idx + 1]] if idx + 1 < n else [ord(c) for c in EOW]
-            rep_entries.append({'prev': prev, 'cur': [w[idx]], 'next': nxt, 'edits': ed, 'weights': weights})
+            prev = w[idx - 1] if idx > 0 else [ord(c) for c in BOW]
+            nxt = w[idx + 1] if idx + 1 < n else [ord(c) for c in EOW]
+            rep_entries.append({'prev': prev, 'cur': w[idx], 'next': nxt, 'edits': ed, 'weights': weights})
     preds = []
     k = 0
     while ('pred%d' % k) in inputs:
         preds.append(bool(inputs['pred%d' % k]))
         k += 1
-    return native.call('edit_word_chain', word=w, g=shape['g'], kinds=kinds, ins=ins_entries, rep=rep_entries,
+    return native.call('edit_word_chain', word=inputs['word'], g=shape['g'], kinds=kinds, ins=ins_entries, rep=rep_entries,
                        full_delete=bool(inputs.get('full_delete', 0)), preds=preds,
                        excl=[i for i in range(n) if inputs.get('excl%d' % i)], chain=shape['chain'], seed=str(seed))
 
@@ -353,20 +391,20 @@ def concrete_check(native, inputs, shape):
         k, v = native_ok(_native_run(native, shape, inputs, seed))
         if k != 'ok':
             return ['no panic']
-        word = [Int(c, 'char') for c in inputs['word']]
+        word = [[Int(c, 'char') for c in u] for u in py_units(inputs['word'], shape['g'])]
         excl = {i for i in range(len(word)) if inputs.get('excl%d' % i)}
         for nw, ne in v:
             ne = set(ne)
-            ok = (nw == [c.v for c in word] and ne == excl)
+            ok = (nw == [c.v for c in flat(word)] and ne == excl)
             for kind, cw, ce in candidates(word, excl, kinds, tbl, shape['g']):
-                if nw == [c.v for c in cw] and ne == ce:
+                if nw == [c.v for c in flat(cw)] and ne == ce:
                     ok = True
             if not ok:
                 failed.add('result is the word unchanged or exactly one edit of an enabled kind at an unprotected '
                            'position, with the exclusion set re-indexed plus the edited positions')
-            if not all(0 <= e < len(nw) - (1 if (shape['g'] and tbl == 2 and 0x301 in nw) else 0) for e in ne):
+            if not all(0 <= e < len(py_units(nw, shape['g'])) for e in ne):
                 failed.add('returned exclusion indices lie inside the new word')
-            word = [Int(c, 'char') for c in nw]
+            word = [[Int(c, 'char') for c in u] for u in py_units(nw, shape['g'])]
             excl = ne
         if failed:
             break
